@@ -80,6 +80,6 @@ def run(ck, prop, tier, seed, replay):
         ck.violation(ck.replay_file("impl", {"what": viol[0]["viol"], "Case": viol[0]}))
     elif bad:
         ck.violation(ck.replay_file("corr", {"obligation": "%s correspondence (Cases/C11Run)" % prop, "Case": cmp_cases[bad[0]][0]}), False)
-    elif ck.discharged != ck.obligations:
+    elif ck.discharged != ck.obligations and not ck.violations:
         ck.violation(ck.replay_file("oblig", {"obligation": ck.cov.get("failed_obligations")}), False)
     return cases
